@@ -25,7 +25,7 @@ ID = 'C02'
 LEAN_MODULE = 'Pycel.Props.C02'
 NS = 'Pycel.Formula.'
 THEOREMS = [NS + t for t in (
-    'C02_levels', 'C02_left_assoc', 'C02_table_is_spec', 'C02_parse', 'C02_amend', 'C02_parse_raw', 'C02_build', 'C02_parse_tree', 'C02_emit',
+    'C02_levels', 'C02_left_assoc', 'C02_table_is_spec', 'C02_parse', 'C02_amend', 'C02_parse_raw', 'C02_build', 'C02_parse_tree', 'C02_emit', 'C02_handlers',
     'emit_current_counterexample', 'C02_literal_text', 'C02_literal', 'literal_current_counterexample',
     'C02_number', 'number_current_counterexample', 'C02_literal_logical', 'C02_literal_error', 'evalPy_toPy', 'C02_sound', 'C02_sound_raw', 'C02_sound_ops')]
 DESIGN_REF = 'DESIGN.md §7 C02'
@@ -59,7 +59,7 @@ ASSUMPTIONS = [
     'a NUL character inside a text literal is not generated (CPython rejects NUL in source; XML cell text has none)',
 ]
 TRUSTED = ['modelled, not verified: openpyxl tokenizer, CPython tokenizer/parser (cross-checked), networkx DiGraph']
-REQUIRED_BUCKETS = ['surf:wf', 'code:wf', 'code:nonwf', 'surf:neg-under-pow', 'surf:func', 'surf:literal-text',
+REQUIRED_BUCKETS = ['surf:call-position', 'surf:wf', 'code:wf', 'code:nonwf', 'surf:neg-under-pow', 'surf:func', 'surf:literal-text',
                     'surf:literal-number', 'raw', 'raw:error', 'py', 'py:reject']
 EXHAUSTIVE = False
 EXPLANATION = ('Theorems (Props/C02.lean) hold for every surface expression / tree / character list: the live precedence '
@@ -82,7 +82,50 @@ XL2PY = {'pow': 'pow', 'mul': 'mul', 'div': 'div', 'add': 'add', 'sub': 'sub', '
          'ne': 'ne', 'lt': 'lt', 'gt': 'gt', 'le': 'le', 'ge': 'ge'}
 ATOM, NEGL, PCTL = 500, 7, 6
 PLAIN_FUNCS = ['SUM', 'MAX', 'MIN', 'ABS', 'IF', 'AND', 'CONCATENATE', 'AVERAGE', 'ROUND', 'PI', 'TRUE', 'FALSE',
-               'sum', 'Max', 'mIN', 'FLOOR.MATH', '_xlfn.CEILING.MATH', 'Sqrt', 'LEN']
+               'sum', 'Max', 'mIN', 'FLOOR.MATH', '_xlfn.CEILING.MATH', 'Sqrt', 'LEN', 'POWER', 'SIGN', 'MOD', 'OR',
+               'NOT', 'N', 'Power', 'SUM', 'IF', 'ABS']
+# sample calls (number-only arguments) put into every operand position of every operator
+FUNC_SAMPLES = {'POWER': ['2', '3'], 'ABS': [['U', ['N', '2']]], 'SIGN': [['U', ['N', '3']]], 'MOD': ['7', '3'],
+                'SUM': ['1', '2'], 'MAX': ['1', '2'], 'MIN': ['3', '2'], 'IF': ['1', '2', '3'], 'AND': ['1', '0'],
+                'OR': ['0', '1'], 'NOT': ['0'], 'N': ['5'], 'ROUND': ['2.5', '0'], 'LEN': [['T', 'ab']], 'SQRT': ['4'],
+                'INT': ['2.5'], 'AVERAGE': ['1', '3'], 'PI': [], 'TRUE': [], 'FALSE': [], 'CONCATENATE': ['1', '2'],
+                'FLOOR.MATH': ['2.5'], 'EXP': ['1'], 'LOG': ['8', '2']}
+CONTEXT_HANDLERS = {'row', 'column', 'offset', 'indirect', 'subtotal', 'array', 'arrayrow'}
+
+
+def handler_names():
+    """the function names with a dedicated emitter in the LIVE FunctionNode (a new one joins the generated trees)"""
+    from pycel.excelformula import FunctionNode
+    return sorted(n[5:] for n in dir(FunctionNode) if n.startswith('func_') and callable(getattr(FunctionNode, n)))
+
+
+def sample_calls():
+    names = dict(FUNC_SAMPLES)
+    for h in handler_names():
+        if h not in CONTEXT_HANDLERS and h.upper() not in names:
+            names[h.upper()] = ['2', '3']
+    for name, args in names.items():
+        yield ['F', name, [a if isinstance(a, list) else ['N', a] for a in args]]
+
+
+def call_positions(call):
+    """the call in every operand position: left / right / both sides of every operator, under unary minus and %,
+    as the base and the exponent of ^ together with a unary minus, with redundant parentheses, inside another call"""
+    two = ['N', '2']
+    for op in XL2PY:
+        yield ['B', op, call, two]
+        yield ['B', op, two, call]
+        yield ['B', op, call, call]
+    yield ['U', call]
+    yield ['%', call]
+    yield ['U', ['%', call]]
+    yield ['B', 'pow', ['U', call], two]
+    yield ['B', 'pow', two, ['U', call]]
+    yield ['B', 'pow', ['B', 'pow', call, two], two]
+    yield ['B', 'pow', ['%', call], two]
+    yield ['B', 'mul', ['B', 'pow', call, two], call]
+    yield ['F', 'SUM', [call, ['B', 'pow', call, two]]]
+
 SPECIAL_FUNCS = {'row', 'column', 'offset', 'indirect', 'subtotal', 'array', 'arrayrow', 'map'}
 
 
@@ -879,6 +922,9 @@ def bucket(c):
             return 'surf:literal-text'
         if e[0] == 'N':
             return 'surf:literal-number'
+        if e[0] == 'B' and 'F' in (e[2][0], e[3][0]) or e[0] in 'U%' and erase(e[1])[0] in 'F%' and 'F' in \
+                {x[0] for x in _walk(e)} and count_ops(e) <= 4:
+            return 'surf:call-position'
         if has_neg_under_pow(s):
             return 'surf:neg-under-pow'
         if 'F' in {x[0] for x in _walk(s)}:
@@ -965,8 +1011,12 @@ def random_tree(rng, depth, leafs=None):
         return ['%', random_tree(rng, depth - 1)]
     if r < 0.33:
         name = rng.choice(PLAIN_FUNCS)
-        n = 0 if name.upper() in ('PI', 'TRUE', 'FALSE') else rng.choice([1, 1, 2, 2, 3])
+        n = 0 if name.upper() in ('PI', 'TRUE', 'FALSE') else 2 if name.upper() in ('POWER', 'MOD') else \
+            rng.choice([1, 1, 2, 2, 3])
         args = [random_tree(rng, depth - 1) for _ in range(n)]
+        if name.upper() == 'POWER':      # exponent kept small, as for ^
+            args[1] = rng.choice([['N', rng.choice(['0', '1', '2', '3', '0.5'])], ['U', ['N', '2']],
+                                  ['R', rng.choice(['A1', 'B2', 'C3'])]])
         if n >= 2 and rng.random() < 0.15:
             args[rng.randrange(n)] = ['Z']
         return ['F', name, args]
@@ -1145,6 +1195,12 @@ def cases(tier, rng):
                      (['U', ['F', 'SUM', [['N', '1'], ['N', '2']]]], ['N', '2'])):
             yield from both(minimal_parens(['B', op, l, r]))
             yield from both(['P', ['B', op, ['P', l] if l[0] == 'U' else l, ['P', r] if r[0] == 'U' else r]])
+    # --- every function with a dedicated emitter (live) and a sample of library functions, in every operand position
+    for call in sample_calls():
+        yield from both(call)
+        for t in call_positions(call):
+            yield from both(minimal_parens(t))
+        yield from both(['B', 'pow', ['P', call], ['N', '2']])
     # --- raw strings
     for f in RAW_FIXED:
         yield {'k': 'raw', 'f': f, 'bad': _raw_bad(f)}
